@@ -1544,10 +1544,43 @@ async fn listener(tp: &str) -> Listener {
 }
 
 async fn read_id(s: &S) -> io::Result<u8> {
-    let BufResult(r, b) = on!(s, x => { let mut x = x; x.read(Vec::with_capacity(1)).await });
+    let BufResult(r, b) = match compio_runtime::time::timeout(Duration::from_secs(2), async {
+        on!(s, x => { let mut x = x; x.read(Vec::with_capacity(1)).await })
+    })
+    .await
+    {
+        Ok(r) => r,
+        Err(_) => return Err(io::Error::new(io::ErrorKind::TimedOut, "no id byte within 2 s")),
+    };
     match r? {
         1 => Ok(b[0]),
         _ => Err(io::Error::new(io::ErrorKind::UnexpectedEof, "no id byte")),
+    }
+}
+
+/// live accepted streams are different sockets: pairwise distinct descriptors and distinct peers
+fn check_aliases(ex: &Rc<RefCell<Exec>>, line: &str, conns: &[S]) {
+    let fds: Vec<RawFd> = conns.iter().map(|c| c.fd()).collect();
+    for i in 0..fds.len() {
+        for j in i + 1..fds.len() {
+            if fds[i] == fds[j] {
+                ex.borrow_mut().fail("C14:accept-aliased", format!("{line}: accepted streams #{i} and #{j} are both descriptor {}", fds[i]));
+            }
+        }
+    }
+    let peers: Vec<Option<std::net::SocketAddr>> = conns
+        .iter()
+        .map(|c| match c {
+            S::Tcp(s) => s.peer_addr().ok(),
+            S::Unix(_) => None,
+        })
+        .collect();
+    for i in 0..peers.len() {
+        for j in i + 1..peers.len() {
+            if peers[i].is_some() && peers[i] == peers[j] {
+                ex.borrow_mut().fail("C14:accept-aliased", format!("{line}: accepted streams #{i} and #{j} have the same peer {:?}", peers[i]));
+            }
+        }
     }
 }
 
@@ -1618,10 +1651,32 @@ async fn accept_case(line: &str, ex: Rc<RefCell<Exec>>) -> String {
             }
             other => panic!("bad accept mode {other}"),
         }
+        check_aliases(&ex, line, &conns);
+        // every accepted stream — also the early ones, after all later accepts happened — is connected to
+        // its own client: it carries that client's id and its answer reaches that client
         for c in &conns {
             match read_id(c).await {
-                Ok(id) => ids.push(id),
+                Ok(id) => {
+                    ids.push(id);
+                    let r = on!(c, x => { let mut x = x; x.write(vec![id ^ 0x80]).await.0 });
+                    if let Err(e) = r {
+                        ex.borrow_mut().fail("C14:stream-mismatch", format!("{line}: answer on accepted connection {id}: {e}"));
+                    }
+                }
                 Err(e) => ex.borrow_mut().fail("C14:accept-dup-or-missing", format!("{line}: accepted connection carries no id: {e}")),
+            }
+        }
+        for (i, c) in clients.iter().enumerate().take(conns.len()) {
+            let r = compio_runtime::time::timeout(Duration::from_secs(2), async {
+                on!(c, x => { let mut x = x; x.read(Vec::with_capacity(1)).await })
+            })
+            .await;
+            match r {
+                Ok(BufResult(Ok(1), b)) if b[0] == i as u8 ^ 0x80 => {}
+                other => ex.borrow_mut().fail(
+                    "C14:stream-mismatch",
+                    format!("{line}: client {i} did not get the answer of its own accepted stream: {:?}", other.map(|BufResult(r, b)| (r.map_err(|e| e.kind()), b))),
+                ),
             }
         }
         // let the driver finish the cancelled accept
@@ -1745,9 +1800,17 @@ async fn accept_burst_case(line: &str, ex: Rc<RefCell<Exec>>) -> String {
         if let Listener::Unix(_, p) = &l {
             let _ = std::fs::remove_file(p);
         }
+        check_aliases(&ex, line, &conns);
         // every accepted connection carries the tag of exactly one client, and answers that client
         for c in conns.iter().skip(1) {
-            let BufResult(r, tag) = on!(c, x => { let mut x = x; compio_io::AsyncReadExt::read_exact(&mut x, vec![0u8; 4]).await });
+            let Ok(BufResult(r, tag)) = compio_runtime::time::timeout(Duration::from_secs(2), async {
+                on!(c, x => { let mut x = x; compio_io::AsyncReadExt::read_exact(&mut x, vec![0u8; 4]).await })
+            })
+            .await
+            else {
+                ex.borrow_mut().fail("C14:accept-dup-or-missing", format!("{line}: an accepted connection delivered no tag within 2 s"));
+                continue;
+            };
             match r {
                 Ok(_) if tag.iter().all(|b| *b == tag[0]) => {
                     ids.push(tag[0]);
@@ -1992,7 +2055,7 @@ async fn ms_case(line: &str, ex: Rc<RefCell<Exec>>) -> String {
     toks.join(" ")
 }
 
-fn exec(case: &Case) -> Exec {
+fn exec_local(case: &Case) -> Exec {
     let ex = Rc::new(RefCell::new(Exec::new()));
     let caps = Rc::new(RefCell::new(Caps::default()));
     let first: Vec<&str> = case.lines[0].split_whitespace().collect();
@@ -2553,12 +2616,197 @@ fn generate(tier: &str, rng: &mut Rng) -> Vec<Case> {
     cases
 }
 
+// ---------------------------------------------------------------------------------------------
+// process isolation: the real code can abort the process (std's IO-safety check on a descriptor closed
+// twice, a panic while unwinding). Every case runs in a long-lived worker child (`c14 --worker`,
+// restarted after a crash); a worker that dies or hangs while executing a case turns into the monitor
+// failure `C14:abort` / `C14:hang` with that case as replay.
+
+struct Worker {
+    child: std::process::Child,
+    stdin: std::process::ChildStdin,
+    lines: std::sync::mpsc::Receiver<String>,
+}
+
+thread_local! {
+    static WORKER: RefCell<Option<Worker>> = const { RefCell::new(None) };
+}
+
+const CASE_TIMEOUT: Duration = Duration::from_secs(150);
+
+fn start_worker() -> Worker {
+    use std::io::BufRead;
+    let exe = std::env::current_exe().expect("current_exe");
+    let mut child = std::process::Command::new(exe)
+        .arg("--worker")
+        .stdin(std::process::Stdio::piped())
+        .stdout(std::process::Stdio::piped())
+        .stderr(std::process::Stdio::null())
+        .spawn()
+        .expect("spawn worker");
+    let stdin = child.stdin.take().unwrap();
+    let stdout = child.stdout.take().unwrap();
+    let (tx, rx) = std::sync::mpsc::channel();
+    std::thread::spawn(move || {
+        for l in std::io::BufReader::new(stdout).lines() {
+            match l {
+                Ok(l) => {
+                    if tx.send(l).is_err() {
+                        break;
+                    }
+                }
+                Err(_) => break,
+            }
+        }
+    });
+    Worker { child, stdin, lines: rx }
+}
+
+fn worker_request(req: &str) -> Result<Vec<String>, String> {
+    use std::io::Write;
+    use std::sync::mpsc::RecvTimeoutError;
+    WORKER.with(|w| {
+        let mut w = w.borrow_mut();
+        if w.is_none() {
+            *w = Some(start_worker());
+        }
+        let wk = w.as_mut().unwrap();
+        let sent = wk.stdin.write_all(req.as_bytes()).and_then(|_| wk.stdin.flush());
+        let mut out = vec![];
+        let mut err = None;
+        if sent.is_err() {
+            err = Some("abort");
+        }
+        while err.is_none() {
+            match wk.lines.recv_timeout(CASE_TIMEOUT) {
+                Ok(l) if l == "DONE" => break,
+                Ok(l) => out.push(l),
+                Err(RecvTimeoutError::Timeout) => err = Some("hang"),
+                Err(RecvTimeoutError::Disconnected) => err = Some("abort"),
+            }
+        }
+        match err {
+            None => Ok(out),
+            Some(kind) => {
+                let mut wk = w.take().unwrap();
+                wk.child.kill().ok();
+                let status = wk.child.wait().map(|s| s.to_string()).unwrap_or_else(|e| e.to_string());
+                Err(format!("{kind}: worker process {status}"))
+            }
+        }
+    })
+}
+
+fn stop_worker() {
+    WORKER.with(|w| {
+        if let Some(mut wk) = w.borrow_mut().take() {
+            drop(wk.stdin);
+            wk.child.wait().ok();
+        }
+    });
+}
+
+fn exec(case: &Case) -> Exec {
+    let mut req = format!("CASE\t{}\n", case.name.replace(['\t', '\n'], " "));
+    for l in &case.lines {
+        req.push_str("L ");
+        req.push_str(&l.replace('\n', " "));
+        req.push('\n');
+    }
+    req.push_str("END\n");
+    let mut ex = Exec::new();
+    match worker_request(&req) {
+        Ok(lines) => {
+            for l in lines {
+                if let Some(o) = l.strip_prefix("O ") {
+                    ex.out.push(o.to_string());
+                } else if l == "O" {
+                    ex.out.push(String::new());
+                } else if let Some(f) = l.strip_prefix("F ") {
+                    let (sig, detail) = f.split_once('\t').unwrap_or((f, ""));
+                    ex.fail(sig, detail);
+                } else if let Some(t) = l.strip_prefix("T ") {
+                    ex.tag(t);
+                } else if l == "N 1" {
+                    ex.nontrivial = true;
+                }
+            }
+            if ex.out.len() != case.lines.len() {
+                ex.fail("C14:harness-protocol", format!("worker answered {} lines for {}", ex.out.len(), case.lines.len()));
+                ex.out.resize(case.lines.len(), "lost".into());
+            }
+        }
+        Err(why) => {
+            let kind = if why.starts_with("hang") { "hang" } else { "abort" };
+            ex.out = vec![kind.to_string(); case.lines.len()];
+            ex.tag(format!("worker:{kind}"));
+            ex.fail(
+                format!("C14:{kind}"),
+                format!(
+                    "the process running this case on the real code {why} (e.g. a descriptor closed twice trips std's IO-safety abort; a hang means no answer for {} s)",
+                    CASE_TIMEOUT.as_secs()
+                ),
+            );
+        }
+    }
+    ex
+}
+
+fn worker_main() {
+    use std::io::{BufRead, Write};
+    std::panic::set_hook(Box::new(|_| {}));
+    let stdin = std::io::stdin();
+    let mut out = std::io::BufWriter::new(std::io::stdout());
+    let mut it = stdin.lock().lines();
+    while let Some(Ok(head)) = it.next() {
+        let parts: Vec<&str> = head.split('\t').collect();
+        if let ["CASE", name] = parts.as_slice() {
+            let mut lines = vec![];
+            for l in it.by_ref() {
+                let Ok(l) = l else { break };
+                if l == "END" {
+                    break;
+                }
+                lines.push(l.strip_prefix("L ").unwrap_or(&l).to_string());
+            }
+            let case = Case { name: name.to_string(), lines };
+            let n = case.lines.len();
+            let ex = match catch(|| exec_local(&case)) {
+                Ok(ex) => ex,
+                Err(e) => {
+                    let mut ex = Exec::new();
+                    ex.out = vec!["panic".into(); n];
+                    ex.fail("C14:panic", format!("panic: {e}"));
+                    ex
+                }
+            };
+            for o in &ex.out {
+                writeln!(out, "O {}", o.replace('\n', " ")).ok();
+            }
+            for f in &ex.failures {
+                writeln!(out, "F {}\t{}", f.sig, f.detail.replace(['\n', '\t'], " ")).ok();
+            }
+            for t in &ex.tags {
+                writeln!(out, "T {t}").ok();
+            }
+            writeln!(out, "N {}", ex.nontrivial as u8).ok();
+        }
+        writeln!(out, "DONE").ok();
+        out.flush().ok();
+    }
+}
+
 fn main() {
+    if std::env::args().any(|a| a == "--worker") {
+        worker_main();
+        return;
+    }
     run_harness(
         generate,
         exec,
         "distinct by case text; non-trivial = at least one receive delivered bytes (n>0 / Some / multishot item), a concurrent transfer moved bytes, a connection was accepted, or a crafted recvmsg_out buffer passed `new`",
     );
+    stop_worker();
 }
 
 #[allow(dead_code)]
